@@ -91,13 +91,28 @@ def groups(R, thorough):
     # an X25519 secret for which the shared secret with the fixed peer value is a boundary value of the field representation (small, or just
     # below p: the canonical encoding's final subtraction), next to ordinary secrets for the same peer value
     from props import curvecommon as cc
-    for fam, cands in (("below-p", [cc.P - k for k in range(1, 400)]), ("small", list(range(19, 400))), ("low-limb-full", [((R.rng.getrandbits(204) << 51) | ((1 << 51) - k)) for k in range(1, 200)])):
+    for fam, cands in (("below-p", [cc.P - k for k in range(1, 400)]), ("small", list(range(19, 400))), ("low-limb-full", [((R.rng.getrandbits(204) << 51) | ((1 << 51) - k)) for k in (1, 2, 14, 15, 18, 19) for _ in range(12)])):
         k0 = vlib.prng_bytes(R.seed, "c19/xk/" + fam, 32)
         for v in cands:
             u = cc.x25519_preimage(v % cc.P, k0)
             if u is not None:
                 g.append(("x25519/result-" + fam, "x25519", [("crafted:" + fam, k0, cc.le32(u))] + [(l, s, cc.le32(u)) for l, s in secrets32(R, "xr/" + fam, 3 if not thorough else 8)]))
                 break
+    # single field operations on secret operands (every value the ladder and the group formulas compute with is secret-derived): operands at the
+    # limb boundaries, and limb patterns crafted for the rare tail carries of the carry chains (classes of Fe64.tla), next to ordinary ones
+    z32 = [0] * 32
+    mso = cc.mul_small_operands(R.rng)
+    for victim, nine in (("fe:mul_small", 0), ("fe:sub:mul_small", 0), ("fe:mul_small9", 1), ("fe:sub:mul_small9", 1)):
+        g.append((victim, victim, [(l, e + z32, None) for l, n, e in mso if n == nine]))
+    M51 = (1 << 51) - 1
+    vals = [("zero", 0), ("one", 1), ("two", 2), ("19", 19), ("p-1", cc.P - 1), ("p", cc.P), ("p+1", cc.P + 1), ("2^255-1", (1 << 255) - 1), ("limb0-full", M51), ("limb4-full", M51 << 204),
+            ("limb0-band", (R.rng.getrandbits(204) << 51) | (M51 - 7)), ("2^254", 1 << 254)] + [("seeded%d" % i, int.from_bytes(bytes(vlib.prng_bytes(R.seed, "c19/fe/%d" % i, 32)), "little") >> 1) for i in range(4)]
+    pairs = [(la + "," + lb, cc.le32(a) + cc.le32(b)) for (la, a), (lb, b) in zip(vals, vals[3:] + vals[:3])] + [("two,2^255-1", cc.le32(2) + cc.le32((1 << 255) - 1)), ("2^255-1,2^255-1", cc.le32((1 << 255) - 1) * 2),
+             ("p-1,p-1", cc.le32(cc.P - 1) * 2), ("zero,zero", z32 * 2)]
+    for victim in ("fe:mul", "fe:square", "fe:add", "fe:sub", "fe:neg", "fe:square_and_double", "fe:to_bytes", "fe:is_negative", "fe:add:mul", "fe:sub:square", "fe:mul:to_bytes", "fe:add:to_bytes",
+                   "fe:sub:to_bytes") + (("fe:invert",) if thorough else ()):
+        g.append((victim, victim, [(l, s, None) for l, s in pairs]))
+    g.append(("fe:invert/few", "fe:invert", [(l, s, None) for l, s in pairs[:3] + pairs[-3:]]))
     for v in ("hmac_sha256", "hmac_sha512", "hmac_sha1"):
         g.append((v + "/key32", v, [(l, s, None) for l, s in secrets32(R, v, km)]))
         g.append((v + "/key20", v, [(l, s[:20], None) for l, s in secrets32(R, v + "20", 5)]))
